@@ -419,6 +419,8 @@ def extra_predicate_rule(ctx, rid, f, with_reaper):
                 return rr
             rr.bad(ctx.finding(rid, ld, size_e, "the placeholder length is read from a batch file whose id (%s) is not the one parsed from the missing result's name" % fmt_args, construct="placeholder-batch-id"), "reaper size")
             return rr
+    if "read_from_disk(" in norm(size_e) or any("read_from_disk(" in norm(v_) for nm_ in names_in(size_e) for _, v_ in assignments_to(ld, nm_) if v_ is not None):
+        raise AnalysisError("idiom changed: the placeholder length is read from a file whose path is not recognised as the sown batch of the missing result (`%s`)" % norm(size_e)[:70])
     try:
         L = lin(size_e, subst=sub2, rename=last_attr)
     except NotAffine as e:
@@ -453,6 +455,10 @@ def extra_predicate_rule(ctx, rid, f, with_reaper):
 
 
 # ------------------------------------------------------------------ formulas
+class _HelperRaise(Exception):
+    pass
+
+
 def formulas_rule(ctx, rid):
     """C07.R3: choose_batch_settings computes the documented numbers.  The
     function is a pure integer function of (batchsize, num_batches, remainder,
@@ -486,11 +492,39 @@ def formulas_rule(ctx, rid):
                 return _math.ceil(ev.ev(c.args[0], st))
             if fn == "divmod":
                 return divmod(ev.ev(c.args[0], st), ev.ev(c.args[1], st))
+            if isinstance(c.func, ast.Attribute) and norm(c.func.value) == "self" and c.func.attr in crop.methods and c.func.attr != f.name:
+                # a private helper of the crop: interpreted in place, on the same state
+                hm = crop.methods[c.func.attr]
+                ctx.touch(hm)
+                local = dict(st)
+                params = [p_ for p_ in hm.positional if p_ != "self"]
+                for pn, a_ in zip(params, c.args):
+                    local[pn] = ev.ev(a_, st)
+                for k_ in c.keywords:
+                    if k_.arg:
+                        local[k_.arg] = ev.ev(k_.value, st)
+                for pn, dv in hm.defaults().items():
+                    if pn not in local:
+                        local[pn] = ev.ev(dv, st)
+                sub = IntEval(sym, on_call)
+                hb = [b_ for b_ in hm.node.body if not (isinstance(b_, ast.Expr) and isinstance(b_.value, ast.Constant))]
+                r_ = sub.run(hb, local)
+                if r_[0] == "raise":
+                    raise _HelperRaise()
+                after = r_[1] if r_[0] == "fall" else getattr(sub, "_last_state", {})
+                for k2, v2 in after.items():
+                    if k2.startswith("self."):
+                        st[k2] = v2
+                return r_[1] if r_[0] == "return" else None
+            if fn in ("print", "warnings.warn"):
+                return None
             return NotImplemented
         ev = IntEval(sym, on_call)
         try:
             res = ev.run(body)
         except ZeroDivisionError:
+            return ("raise", None)
+        except _HelperRaise:
             return ("raise", None)
         if res[0] == "raise":
             return res
